@@ -433,6 +433,46 @@ def c01_receiver_case(case):
             'sample': {k: case[k] for k in ('eq', 'topo', 'spectrum')} | {'kind': 'receiver'}}
 
 
+def c01_roundtrip_case(case):
+    """a path and then its opposite direction propagated on the SAME network objects (no copy), twice: after every
+    propagation every transceiver of the path - the transmitting one too - reports figures that obey the 1/GSNR identity"""
+    import numpy as np
+    topo = micro_topologies()[case['topo']]
+    network, equipment, _req, _ref = design(topo, eqpt_json(case['eq']), sim=None)
+    viol, transitions, traces = [], 0, 0
+    paths = all_simple_trx_paths(network)
+    for p in paths[:2]:
+        q = next((x for x in paths if x[0].uid == p[-1].uid and x[-1].uid == p[0].uid), None)
+        if q is None:
+            continue
+        for k, path in enumerate([p, q, p, q]):
+            req = make_request(equipment, path[0].uid, path[-1].uid, spectrum=SPECTRA[case['spectrum']])
+            try:
+                pth, si, rec = propagate_recorded(path, req, equipment, copy_path=False)
+            except Exception:  # noqa  (judged by the propagation cases)
+                break
+            ok = True
+            for trx in (pth[0], pth[-1]):
+                transitions += 1
+                if trx.snr is None or trx.osnr_ase is None or trx.osnr_nli is None:
+                    continue
+                with np.errstate(divide='ignore'):
+                    lhs = 10 ** (-np.array(trx.snr, dtype=float) / 10)
+                    rhs = 10 ** (-np.array(trx.osnr_ase, dtype=float) / 10) + 10 ** (-np.array(trx.osnr_nli, dtype=float) / 10)
+                if lhs.shape != rhs.shape or not np.allclose(lhs, rhs, rtol=1e-9, atol=1e-30):
+                    side = 'transmitting' if trx is pth[0] else 'receiving'
+                    viol.append(dict(fingerprint=f'transceiver:gsnr-identity:{side}-side-after-reuse',
+                                     what=f'propagation {k + 1} ({path[0].uid}->{path[-1].uid}) on the same network objects: the '
+                                          f'{side} transceiver {trx.uid} reports 1/GSNR={lhs[:2].tolist()} but 1/OSNR_ASE + '
+                                          f'1/SNR_NLI={rhs[:2].tolist()}'))
+                    ok = False
+            traces += ok
+    for v in viol:
+        v.setdefault('case', case)
+    return {'violations': viol[:8], 'transitions': transitions, 'traces': traces, 'nontrivial': True,
+            'tags': {'roundtrip-on-same-objects': 1}, 'sample': dict(case)}
+
+
 def c01_multiband_case(case):
     """multi-band propagations (incl. a band that carries exactly one channel): the bookkeeping invariants hold at every
     snapshot and band split/merge inside multi-band amplifiers neither loses nor duplicates a channel"""
